@@ -44,7 +44,7 @@ func runCDSess(env *Env) error {
 		s2 := cdSizes[env.Rnd.Intn(7)]
 		minSectors := func(s int) int { return (0x200000 + s - 1) / s }
 		mk("a.bin", s1, i%2 == 0, minSectors(s1)+env.Rnd.Intn(3))
-		if i%3 != 1 {
+		if i%3 == 0 || env.Tier == "thorough" && i%3 == 2 { // (every image costs the model a list of two million bytes: two or three per case in the quick tier)
 			mk("b.bin", s2, env.Rnd.Intn(2) == 0, minSectors(s2)+20+env.Rnd.Intn(100))
 		}
 		// undetectable: big enough, no signature anywhere
@@ -61,7 +61,7 @@ func runCDSess(env *Env) error {
 			imgs = append(imgs, img{"small.bin", 0, small})
 		}
 		// exactly at the lower edge of the window (2 MiB, inclusive): probed like any larger image
-		if i%3 != 2 {
+		if i%3 == 1 || env.Tier == "thorough" && i%3 == 0 {
 			se := []int{2048, 2328, 2336, 2340, 2368, 2448}[env.Rnd.Intn(6)]
 			exact := genCDImage(env, se, i%2 == 1, minSectors(se))
 			exact[len(exact)-1].N -= int(exact.Size() - 0x200000)
@@ -90,10 +90,35 @@ func runCDSess(env *Env) error {
 			check  bool
 		}
 		var exps []expect
+		// every session starts with a scripted part: a recognised image that is not 2352, a sector read, then - without
+		// CLOSEFILE - an image without a signature (the default applies again) and a read of a sector other than 0
+		var undet []int
+		for j, im := range imgs {
+			if im.s == 0 {
+				undet = append(undet, j)
+			}
+		}
+		script := []int{}
+		if len(undet) > 0 && imgs[0].s != 2352 {
+			script = []int{100, 9, 101, 9}
+		}
 		for k := 0; k < nreq; k++ {
-			switch x := env.Rnd.Intn(10); {
+			x := env.Rnd.Intn(10)
+			forced := -1
+			if k < len(script) {
+				x, forced = script[k], script[k]
+				if x >= 100 {
+					x = 0
+				}
+			}
+			switch {
 			case x < 4:
 				im := imgs[env.Rnd.Intn(len(imgs))]
+				if forced == 100 {
+					im = imgs[0]
+				} else if forced == 101 {
+					im = imgs[undet[env.Rnd.Intn(len(undet))]]
+				}
 				reqs = append(reqs, &Req{Op: opOpenFile, Path: "/" + im.name, Junk: make([]byte, 14)})
 				cur = im.name
 				secSize = im.s
@@ -111,7 +136,11 @@ func runCDSess(env *Env) error {
 				if cur != "" {
 					nsec = len(data[cur]) / secSize
 				}
-				switch env.Rnd.Intn(7) {
+				pick := env.Rnd.Intn(7)
+				if forced == 9 {
+					pick = 3
+				}
+				switch pick {
 				case 6:
 					start, cnt = 0, 0 // nothing from the very first sector
 				case 0:
